@@ -118,7 +118,12 @@ impl RollingLogger {
         for entry in fs::read_dir(&self.log_dir)? {
             let entry = entry?;
             let file_full_path = entry.path();
-            let metadata = fs::metadata(&file_full_path)?;
+            // an entry that cannot be inspected (removed by another logger of this folder between the listing and
+            // this call, a dangling link) is not one of this log's files: skip it instead of failing the whole roll
+            let metadata = match fs::metadata(&file_full_path) {
+                Ok(metadata) => metadata,
+                Err(_) => continue,
+            };
             if !metadata.is_file() && file_full_path.ends_with(&self.log_file_extension) {
                 continue;
             }
